@@ -1069,7 +1069,8 @@ impl Transaction {
                 return false;
             }
 
-            return true;
+            // a staking transaction is sent by a user like any other : the sender, signature,
+            // ownership, value and utxo checks below apply to it as well
         }
 
         //
